@@ -293,7 +293,8 @@ class P(Prop):
     modelled = ("segmentation.optimalPartition (N = rows-1, D/M tables filled by increasing diagonals, both direction tests as written), "
                 "backtracking, backward; optimalSegmentation INCLUDING the call protocol of the cost function (is-None test on glob_param, 3/4 "
                 "positional arguments, defaults, TypeError), the two loops filling the matrix, C + C.T, degenerate track sizes; "
-                "simplification.optimalSimplification (parameter and direction forwarded, b8f1113), simplify() modes 4-8; findStopsGlobal's and "
+                "simplification.optimalSimplification (parameter and direction forwarded, b8f1113), simplify() modes 4-8, "
+                "TrackCollection.simplify for the free modes (collectionSimplifyFree); findStopsGlobal's and "
                 "findStopsGlobalForRTK's reward matrix (row loops with break/continue, thresholds as written, C + C.T), their call of "
                 "optimalPartition(MAXIMIZE); findStopsGlobal from the caller's arguments (findStopsGlobalPy): choice of the track "
                 "(downsampling > 1: the resampled copy), planimetric distance2DTo and elapsed time read from the observations (x, y, z, t), "
@@ -338,6 +339,8 @@ class P(Prop):
         from tracklib.core import Obs, ENUCoords, ObsTime
         from tracklib.core.track import Track
         self.Obs, self.ENU, self.T, self.Track = Obs, ENUCoords, ObsTime, Track
+        from tracklib.core.track_collection import TrackCollection
+        self.TrackCollection = TrackCollection
         self.MODES = {"min": self.S.MODE_SEGMENTATION_MINIMIZE, "max": self.S.MODE_SEGMENTATION_MAXIMIZE}
         self.BUILTIN = {4: getattr(self.Z, "__cost_largest_deviation"), 5: getattr(self.Z, "__cost_mbr_ratio"),
                         6: getattr(self.Z, "__cost_largest_deviation_strict")}
@@ -602,7 +605,7 @@ class P(Prop):
         mode = rng.choice(["min", "max"])
         form = rng.choice(["pos", "pos", "kw", "defmode" if mode == "min" else "pos", "omit" if g[0] == "none" else "pos"])
         if api == "simplify":
-            g, form = ["none"], rng.choice(["pos", "verbose"])
+            g, form = ["none"], rng.choice(["pos", "verbose", "collection"])   # collection: TrackCollection([t, t']).simplify(cost, mode)
         return {"kind": "fe", "api": api, "s": s, "sig": sig, "fam": fam, "A": self.fe_table(rng, n, s), "glob": g, "dflt": d,
                 "mode": mode, "form": form}
 
@@ -1008,7 +1011,15 @@ class P(Prop):
                     r = Z.optimalSimplification(t, cost, g, m, False)
             else:
                 smode = Z.MODE_SIMPLIFY_FREE if case["mode"] == "min" else Z.MODE_SIMPLIFY_FREE_MAXIMIZE
-                r = Z.simplify(t, cost, smode) if form == "verbose" else Z.simplify(t, cost, smode, False)
+                if form == "collection":
+                    # core/track_collection.py: every track of the collection goes through simplify(track, cost, mode)
+                    out = self.TrackCollection([t, self.track(t.size())]).simplify(cost, smode)
+                    r = out[0]
+                    both = [[int(o.getObs(i).position.getX()) for i in range(o.size())] for o in (out[0], out[1])]
+                    if len(out) != 2 or both[0] != both[1]:
+                        return {"idx": both[0], "second": both[1], "matrix": rec.get("matrix")}
+                else:
+                    r = Z.simplify(t, cost, smode) if form == "verbose" else Z.simplify(t, cost, smode, False)
         finally:
             S.optimalPartition = real
         return {"idx": [int(r.getObs(i).position.getX()) for i in range(r.size())], "matrix": rec.get("matrix")}
@@ -1290,6 +1301,8 @@ class P(Prop):
             WD, WG = self.fe_tables(case)
             s = case["s"]
             cmd = {"seg": "segpy", "simp": "simppy", "simplify": "simplify"}[case["api"]]
+            if case["api"] == "simplify" and case.get("form") == "collection":
+                cmd = "simplifyc"
             m = int(self.MODES[case["mode"]])
             if case["api"] == "simplify":
                 m = 7 if case["mode"] == "min" else 8
@@ -1403,6 +1416,11 @@ class P(Prop):
                 out["segments"] = [[int(x) for x in it[0].split("-")] for it in items]
                 out["stops"] = [[Fraction(it[1]), Fraction(it[2]), int(it[3])] for it in items]
             return out
+        if k == "fe" and "|" in r:
+            a, b = r.split("|")          # collectionSimplifyFree on two equal tracks
+            if a != b:
+                return {"idx": [] if a == "_" else [int(x) for x in a.split(",")], "second": b}
+            r = a
         out = {"idx": [] if r == "_" else [int(x) for x in r.split(",")]}
         if k == "fe" and len(replies) > 1:
             out["matrix"] = replies[1]
@@ -1419,6 +1437,9 @@ class P(Prop):
 
     def compare(self, case, impl_out, model_out):
         k = case["kind"]
+        if k == "fe" and ("second" in impl_out or "second" in model_out):
+            return "TrackCollection.simplify: the two equal tracks of the collection are simplified differently: implementation %s / %s, model %s / %s" % (
+                impl_out.get("idx"), impl_out.get("second"), model_out.get("idx"), model_out.get("second"))
         if k == "mc":
             if model_out.get("enc") and case["pts"]:
                 # theorem mincircle_enclosing_is_minimal, checked on the model's run against the harness's own exact geometry
@@ -1855,6 +1876,8 @@ P.theorems = P.theorems + [
 P.theorems = P.theorems + [
     ("TracklibVerif.Props.C12Round", "TV.C12.optimal_rounded_fl",
      "T2 for the addition a (+) b = fl(a + b), ANY rounding fl of an ordered field that is monotone and has relative error u: monotonicity of the rounded addition and of the embedding are proved, not assumed; same bound as optimal_rounded, both directions"),
+    ("TracklibVerif.Props.C12Collection", "TV.C12.collection_simplify_each",
+     "T3: TrackCollection.simplify(cost, MODE_SIMPLIFY_FREE / _MAXIMIZE) returns, in order, simplify(track, cost, mode) of every track (each optimal for the requested direction by simplify_modes); if it raises, some simplify(track, ...) raised that exception after the earlier tracks were simplified"),
     ("TracklibVerif.Props.C12Dispatch", "TV.C12.find_stops_dispatch_verbose",
      "findStops(track, spatial, temporal, MODE_STOPS_GLOBAL[, True]) is findStopsGlobal with downsampling = 1 (verbose lands in the downsampling parameter; True is 1): find_stops_global applies to the dispatcher"),
     ("TracklibVerif.Props.C12Dispatch", "TV.C12.find_stops_dispatch_silent",
